@@ -7,8 +7,8 @@
 (*         image): writer then reference scanner is the identity, in one    *)
 (*         piece and cut at operator boundaries                             *)
 (*   img   inline image data up to MaxData bytes over DataAlphabet: the     *)
-(*         writer as coded round-trips exactly the data that is not         *)
-(*         Ambiguous (finding F9); with WriterAddsLength all of it          *)
+(*         writer round-trips all of it; without WriterAddsLength exactly   *)
+(*         the data that is not Ambiguous (finding F9, negative control)    *)
 (*   nest  call sequences of the Builder up to MaxCalls: ClosingOperators   *)
 (*         leads to a state that CanClose                                   *)
 EXTENDS ContentOps
